@@ -131,6 +131,7 @@ pub proof fn lemma_minimal_len(s: Seq<u8>, k: nat)
 }
 // the length of a slice is a usize (vstd's own axiom about `spec_slice_len`; nothing assumed here)
 pub proof fn lemma_slice_len<T>(s: &[T]) ensures s@.len() <= usize::MAX { assert(vstd::slice::spec_slice_len(s) == s@.len()); }
+pub proof fn lemma_vec_len<T>(v: Vec<T>) ensures v@.len() <= usize::MAX { assert(vstd::std_specs::vec::spec_vec_len(&v) == v@.len()); }
 pub proof fn lemma_subrange_all<T>(s: Seq<T>) ensures s.subrange(0, s.len() as int) == s { assert(s.subrange(0, s.len() as int) =~= s); }
 
 // ---------------------------------------------------------------------------------------------
@@ -247,12 +248,7 @@ pub struct ExTryFromSliceError(core::array::TryFromSliceError);
 pub assume_specification<'a, T: Copy, const N: usize> [<[T; N] as TryFrom<&'a [T]>>::try_from] (s: &[T]) -> (r: core::result::Result<[T; N], core::array::TryFromSliceError>)
     ensures s@.len() == N ==> r.is_ok() && r->Ok_0@ == s@,
             s@.len() != N ==> r.is_err();
-// ASSUMED(std): <[T]>::to_vec copies the slice
-pub assume_specification<T: Clone> [<[T]>::to_vec] (s: &[T]) -> (r: Vec<T>)
-    ensures r@ == s@;
-// ASSUMED(std): Vec::extend appends the items the argument yields (iter_ok / into_seq: prelude_common)
-pub assume_specification<T, A: core::alloc::Allocator, I: IntoIterator<Item = T>> [<Vec<T, A> as Extend<T>>::extend] (v: &mut Vec<T, A>, i: I)
-    ensures iter_ok(i) ==> final(v)@ == old(v)@ + into_seq(i);
+// (<[T]>::to_vec: specification in prelude_common)
 // ASSUMED(dep): color_eyre::Report is built from any std error by `?` (blanket From<E: Error>); no panic
 impl From<core::array::TryFromSliceError> for Report {
     #[verifier::external_body]
@@ -293,6 +289,19 @@ pub open spec fn dec_fr(s: Seq<u8>, off: int) -> nat { le_nat(s.subrange(off, of
 pub open spec fn dec_u64(s: Seq<u8>, off: int) -> int { le_nat(s.subrange(off, off + 8)) as int }
 // canonical: the 32 bytes at `off` encode a value below the field order
 pub open spec fn canonical_at(s: Seq<u8>, off: int) -> bool { le_nat(s.subrange(off, off + 32)) < P() }
+
+pub open spec fn starts_with(s: Seq<u8>, p: Seq<u8>) -> bool { p.len() <= s.len() && s.subrange(0, p.len() as int) == p }
+// reading at offset `off` of the tail s[a..] is reading at a + off of s
+pub proof fn lemma_dec_shift(s: Seq<u8>, a: int, off: int)
+    requires 0 <= a, 0 <= off
+    ensures a + off + 32 <= s.len() ==> dec_fr(s.subrange(a, s.len() as int), off) == dec_fr(s, a + off)
+                && canonical_at(s.subrange(a, s.len() as int), off) == canonical_at(s, a + off),
+            a + off + 8 <= s.len() ==> dec_u64(s.subrange(a, s.len() as int), off) == dec_u64(s, a + off),
+{
+    let t = s.subrange(a, s.len() as int);
+    if a + off + 32 <= s.len() { assert(t.subrange(off, off + 32) =~= s.subrange(a + off, a + off + 32)); }
+    if a + off + 8 <= s.len() { assert(t.subrange(off, off + 8) =~= s.subrange(a + off, a + off + 8)); }
+}
 
 pub proof fn lemma_fr_bytes(x: Fr)
     ensures fr_bytes(x).len() == 32, le_nat(fr_bytes(x)) == x.view(), le_nat(fr_bytes(x)) % P() == x.view(), le_nat(fr_bytes(x)) < P()
